@@ -98,6 +98,14 @@ type Property interface {
 	Rule() string
 }
 
+// Enumerator is implemented by properties that have an exhaustively
+// enumerated part: runs 0..EnumSize-1 replay the tape TapeFor(i) instead of
+// drawing from the PRNG.
+type Enumerator interface {
+	EnumSize(tier Tier) int
+	TapeFor(i int, tier Tier) []uint32
+}
+
 // Registry of properties.
 var registry = map[string]Property{}
 
